@@ -1,1 +1,468 @@
-//! Syscall interposer (link-time seam): see DESIGN.md 3.4.
+//! Syscall interposer (link-time seam, DESIGN.md 3.4). The harness binary
+//! defines these libc symbols itself; the static LMDB archive, std, memmap2
+//! and tempfile bind to them at link time. Every function forwards with
+//! `libc::syscall` unless a run is active and the descriptor belongs to the
+//! run's environment data file or to one of arroy's scratch files.
+
+use std::sync::atomic::{AtomicBool, AtomicU64, Ordering};
+use std::sync::{Arc, Mutex, RwLock};
+
+use libc::{c_char, c_int, c_long, c_void, iovec, off_t, size_t, ssize_t};
+
+#[derive(Default, Clone, Debug)]
+pub struct ScratchFaults {
+    /// fail the n-th (0-based) scratch `write` of the build with this errno
+    pub write_fail: Option<(u64, i32)>,
+    /// every n-th scratch write is interrupted (EINTR) once before it succeeds
+    pub eintr_every: u64,
+    /// every n-th scratch write is short (half of the bytes)
+    pub short_every: u64,
+    /// fail the n-th scratch mmap with ENOMEM
+    pub mmap_fail: Option<u64>,
+    /// fail the n-th scratch file creation with this errno
+    pub create_fail: Option<(u64, i32)>,
+}
+
+#[derive(Default, Debug, Clone)]
+pub struct SysCounters {
+    pub env_pwrite: u64,
+    pub env_writev: u64,
+    pub env_sync: u64,
+    pub scratch_write: u64,
+    pub scratch_mmap: u64,
+    pub scratch_create: u64,
+    pub fired_write_fail: u64,
+    pub fired_eintr: u64,
+    pub fired_short: u64,
+    pub fired_mmap_fail: u64,
+    pub fired_create_fail: u64,
+    pub torn_writes: u64,
+}
+
+pub struct SysState {
+    /// absolute path of the run's data file
+    pub main_data: String,
+    /// absolute prefix of every path of this process's work directory (scratch files live below it)
+    pub work_prefix: String,
+    pub faults: Mutex<ScratchFaults>,
+    pub counters: Mutex<SysCounters>,
+    /// split multi-page writes of the data file in two and raise an event in between
+    pub torn: AtomicBool,
+    pub events: AtomicU64,
+    /// byte count of the last pwrite on the data file (the meta page write is the only one < 4096)
+    pub last_pwrite_count: AtomicU64,
+    eintr_pending: AtomicBool,
+}
+
+static ON: AtomicBool = AtomicBool::new(false);
+static STATE: RwLock<Option<Arc<SysState>>> = RwLock::new(None);
+
+thread_local! {
+    static BUSY: std::cell::Cell<bool> = const { std::cell::Cell::new(false) };
+}
+
+pub fn activate(main_data: &str, work_prefix: &str) -> Arc<SysState> {
+    let st = Arc::new(SysState {
+        main_data: main_data.to_string(),
+        work_prefix: work_prefix.to_string(),
+        faults: Mutex::new(ScratchFaults::default()),
+        counters: Mutex::new(SysCounters::default()),
+        torn: AtomicBool::new(false),
+        events: AtomicU64::new(0),
+        last_pwrite_count: AtomicU64::new(0),
+        eintr_pending: AtomicBool::new(false),
+    });
+    *STATE.write().unwrap() = Some(st.clone());
+    ON.store(true, Ordering::SeqCst);
+    st
+}
+
+pub fn deactivate() {
+    ON.store(false, Ordering::SeqCst);
+    *STATE.write().unwrap() = None;
+}
+
+pub fn state() -> Option<Arc<SysState>> {
+    if !ON.load(Ordering::Relaxed) {
+        return None;
+    }
+    STATE.read().unwrap().clone()
+}
+
+impl SysState {
+    pub fn set_faults(&self, f: ScratchFaults) {
+        *self.faults.lock().unwrap() = f;
+        let mut c = self.counters.lock().unwrap();
+        c.scratch_write = 0;
+        c.scratch_mmap = 0;
+        c.scratch_create = 0;
+    }
+    pub fn counters(&self) -> SysCounters {
+        self.counters.lock().unwrap().clone()
+    }
+}
+
+#[derive(PartialEq, Eq, Clone, Copy, Debug)]
+enum Class {
+    Other,
+    EnvData,
+    Scratch,
+}
+
+fn set_errno(e: i32) {
+    unsafe { *libc::__errno_location() = e };
+}
+
+fn classify(st: &SysState, fd: c_int) -> Class {
+    if fd <= 2 {
+        return Class::Other;
+    }
+    let mut link = [0u8; 64];
+    let s = format_fd_path(&mut link, fd);
+    let mut buf = [0u8; 512];
+    let n = unsafe {
+        libc::syscall(libc::SYS_readlinkat, libc::AT_FDCWD, s.as_ptr() as *const c_char, buf.as_mut_ptr() as *mut c_char, buf.len())
+    };
+    if n <= 0 {
+        return Class::Other;
+    }
+    let path = &buf[..n as usize];
+    if path == st.main_data.as_bytes() {
+        return Class::EnvData;
+    }
+    if path.starts_with(st.work_prefix.as_bytes()) && !path.ends_with(b".mdb") && !path.ends_with(b".json") {
+        // anonymous temp files read back as "<dir>/#<inode> (deleted)"
+        if path.ends_with(b"(deleted)") || path.windows(9).any(|w| w == b"/scratch/") || path.windows(5).any(|w| w == b"/tmp/") {
+            return Class::Scratch;
+        }
+    }
+    Class::Other
+}
+
+fn format_fd_path(buf: &mut [u8; 64], fd: c_int) -> &[u8] {
+    let prefix = b"/proc/self/fd/";
+    buf[..prefix.len()].copy_from_slice(prefix);
+    let mut digits = [0u8; 12];
+    let mut n = fd as u32;
+    let mut i = 0;
+    loop {
+        digits[i] = b'0' + (n % 10) as u8;
+        n /= 10;
+        i += 1;
+        if n == 0 {
+            break;
+        }
+    }
+    let mut p = prefix.len();
+    while i > 0 {
+        i -= 1;
+        buf[p] = digits[i];
+        p += 1;
+    }
+    buf[p] = 0;
+    &buf[..p + 1]
+}
+
+/// Raise a simulator event: tick, observer, yield point.
+fn event(kind: &'static str) {
+    if let Some(ctx) = crate::ctx::active() {
+        ctx.tick(kind);
+        if let Some(ts) = &ctx.ts {
+            ts.yield_point(kind);
+        }
+    }
+}
+
+fn guard<T>(fallback: impl FnOnce() -> T, f: impl FnOnce(&SysState) -> T) -> T {
+    if !ON.load(Ordering::Relaxed) || BUSY.with(|b| b.get()) {
+        return fallback();
+    }
+    let Some(st) = state() else { return fallback() };
+    BUSY.with(|b| b.set(true));
+    let r = f(&st);
+    BUSY.with(|b| b.set(false));
+    r
+}
+
+unsafe fn raw_pwrite(fd: c_int, buf: *const c_void, count: size_t, offset: off_t) -> ssize_t {
+    libc::syscall(libc::SYS_pwrite64, fd as c_long, buf, count, offset) as ssize_t
+}
+
+unsafe fn do_pwrite(fd: c_int, buf: *const c_void, count: size_t, offset: off_t) -> ssize_t {
+    guard(
+        || raw_pwrite(fd, buf, count, offset),
+        |st| {
+            if classify(st, fd) != Class::EnvData {
+                return raw_pwrite(fd, buf, count, offset);
+            }
+            st.counters.lock().unwrap().env_pwrite += 1;
+            st.events.fetch_add(1, Ordering::SeqCst);
+            st.last_pwrite_count.store(count as u64, Ordering::SeqCst);
+            BUSY.with(|b| b.set(false));
+            event("sys:pwrite:pre");
+            let r = if st.torn.load(Ordering::SeqCst) && count > 4096 {
+                let first = (count / 2) & !4095usize;
+                let first = first.max(4096);
+                let a = raw_pwrite(fd, buf, first, offset);
+                if a == first as ssize_t {
+                    st.counters.lock().unwrap().torn_writes += 1;
+                    event("sys:pwrite:torn");
+                    let b = raw_pwrite(fd, (buf as *const u8).add(first) as *const c_void, count - first, offset + first as off_t);
+                    if b < 0 {
+                        b
+                    } else {
+                        a + b
+                    }
+                } else {
+                    a
+                }
+            } else {
+                raw_pwrite(fd, buf, count, offset)
+            };
+            event("sys:pwrite:post");
+            BUSY.with(|b| b.set(true));
+            r
+        },
+    )
+}
+
+#[no_mangle]
+pub unsafe extern "C" fn pwrite(fd: c_int, buf: *const c_void, count: size_t, offset: off_t) -> ssize_t {
+    do_pwrite(fd, buf, count, offset)
+}
+
+#[no_mangle]
+pub unsafe extern "C" fn pwrite64(fd: c_int, buf: *const c_void, count: size_t, offset: off_t) -> ssize_t {
+    do_pwrite(fd, buf, count, offset)
+}
+
+unsafe fn raw_writev(fd: c_int, iov: *const iovec, n: c_int) -> ssize_t {
+    libc::syscall(libc::SYS_writev, fd as c_long, iov, n as c_long) as ssize_t
+}
+
+#[no_mangle]
+pub unsafe extern "C" fn writev(fd: c_int, iov: *const iovec, n: c_int) -> ssize_t {
+    guard(
+        || raw_writev(fd, iov, n),
+        |st| {
+            if classify(st, fd) != Class::EnvData {
+                return raw_writev(fd, iov, n);
+            }
+            st.counters.lock().unwrap().env_writev += 1;
+            st.events.fetch_add(1, Ordering::SeqCst);
+            BUSY.with(|b| b.set(false));
+            event("sys:writev:pre");
+            let r = if st.torn.load(Ordering::SeqCst) && n > 1 {
+                let k = (n / 2).max(1);
+                let a = raw_writev(fd, iov, k);
+                let expect: usize = (0..k as usize).map(|i| (*iov.add(i)).iov_len).sum();
+                if a == expect as ssize_t {
+                    st.counters.lock().unwrap().torn_writes += 1;
+                    event("sys:writev:torn");
+                    let b = raw_writev(fd, iov.add(k as usize), n - k);
+                    if b < 0 {
+                        b
+                    } else {
+                        a + b
+                    }
+                } else {
+                    a
+                }
+            } else {
+                raw_writev(fd, iov, n)
+            };
+            event("sys:writev:post");
+            BUSY.with(|b| b.set(true));
+            r
+        },
+    )
+}
+
+unsafe fn raw_write(fd: c_int, buf: *const c_void, count: size_t) -> ssize_t {
+    libc::syscall(libc::SYS_write, fd as c_long, buf, count) as ssize_t
+}
+
+#[no_mangle]
+pub unsafe extern "C" fn write(fd: c_int, buf: *const c_void, count: size_t) -> ssize_t {
+    if fd <= 2 {
+        return raw_write(fd, buf, count);
+    }
+    guard(
+        || raw_write(fd, buf, count),
+        |st| {
+            match classify(st, fd) {
+                Class::Scratch => {
+                    let f = st.faults.lock().unwrap().clone();
+                    let ord = {
+                        let mut c = st.counters.lock().unwrap();
+                        let o = c.scratch_write;
+                        c.scratch_write += 1;
+                        o
+                    };
+                    if let Some((n, errno)) = f.write_fail {
+                        if ord >= n {
+                            st.counters.lock().unwrap().fired_write_fail += 1;
+                            set_errno(errno);
+                            return -1;
+                        }
+                    }
+                    if f.eintr_every > 0 && ord % f.eintr_every == 0 && !st.eintr_pending.swap(true, Ordering::SeqCst) {
+                        // the retry of the same write must succeed: do not count it again
+                        st.counters.lock().unwrap().scratch_write -= 1;
+                        st.counters.lock().unwrap().fired_eintr += 1;
+                        set_errno(libc::EINTR);
+                        return -1;
+                    }
+                    st.eintr_pending.store(false, Ordering::SeqCst);
+                    if f.short_every > 0 && ord % f.short_every == f.short_every - 1 && count > 1 {
+                        st.counters.lock().unwrap().fired_short += 1;
+                        return raw_write(fd, buf, count / 2);
+                    }
+                    raw_write(fd, buf, count)
+                }
+                Class::EnvData => {
+                    // LMDB does not use write(2) on the data file after creation; count it all the same
+                    st.events.fetch_add(1, Ordering::SeqCst);
+                    raw_write(fd, buf, count)
+                }
+                Class::Other => raw_write(fd, buf, count),
+            }
+        },
+    )
+}
+
+unsafe fn do_sync(fd: c_int, nr: c_long, name_pre: &'static str, name_post: &'static str) -> c_int {
+    guard(
+        || libc::syscall(nr, fd as c_long) as c_int,
+        |st| {
+            if classify(st, fd) != Class::EnvData {
+                return libc::syscall(nr, fd as c_long) as c_int;
+            }
+            st.counters.lock().unwrap().env_sync += 1;
+            st.events.fetch_add(1, Ordering::SeqCst);
+            BUSY.with(|b| b.set(false));
+            event(name_pre);
+            let r = libc::syscall(nr, fd as c_long) as c_int;
+            event(name_post);
+            BUSY.with(|b| b.set(true));
+            r
+        },
+    )
+}
+
+#[no_mangle]
+pub unsafe extern "C" fn fdatasync(fd: c_int) -> c_int {
+    do_sync(fd, libc::SYS_fdatasync, "sys:fdatasync:pre", "sys:fdatasync:post")
+}
+
+#[no_mangle]
+pub unsafe extern "C" fn fsync(fd: c_int) -> c_int {
+    do_sync(fd, libc::SYS_fsync, "sys:fsync:pre", "sys:fsync:post")
+}
+
+unsafe fn raw_mmap(addr: *mut c_void, len: size_t, prot: c_int, flags: c_int, fd: c_int, off: off_t) -> *mut c_void {
+    libc::syscall(libc::SYS_mmap, addr, len, prot as c_long, flags as c_long, fd as c_long, off) as *mut c_void
+}
+
+unsafe fn do_mmap(addr: *mut c_void, len: size_t, prot: c_int, flags: c_int, fd: c_int, off: off_t) -> *mut c_void {
+    if fd < 0 {
+        return raw_mmap(addr, len, prot, flags, fd, off);
+    }
+    guard(
+        || raw_mmap(addr, len, prot, flags, fd, off),
+        |st| {
+            if classify(st, fd) == Class::Scratch {
+                let f = st.faults.lock().unwrap().clone();
+                let ord = {
+                    let mut c = st.counters.lock().unwrap();
+                    let o = c.scratch_mmap;
+                    c.scratch_mmap += 1;
+                    o
+                };
+                if f.mmap_fail.is_some_and(|n| ord >= n) {
+                    st.counters.lock().unwrap().fired_mmap_fail += 1;
+                    set_errno(libc::ENOMEM);
+                    return libc::MAP_FAILED;
+                }
+            }
+            raw_mmap(addr, len, prot, flags, fd, off)
+        },
+    )
+}
+
+#[no_mangle]
+pub unsafe extern "C" fn mmap(addr: *mut c_void, len: size_t, prot: c_int, flags: c_int, fd: c_int, off: off_t) -> *mut c_void {
+    do_mmap(addr, len, prot, flags, fd, off)
+}
+
+#[no_mangle]
+pub unsafe extern "C" fn mmap64(addr: *mut c_void, len: size_t, prot: c_int, flags: c_int, fd: c_int, off: off_t) -> *mut c_void {
+    do_mmap(addr, len, prot, flags, fd, off)
+}
+
+unsafe fn raw_open(path: *const c_char, flags: c_int, mode: libc::c_uint) -> c_int {
+    libc::syscall(libc::SYS_openat, libc::AT_FDCWD as c_long, path, flags as c_long, mode as c_long) as c_int
+}
+
+unsafe fn do_open(path: *const c_char, flags: c_int, mode: libc::c_uint) -> c_int {
+    // only the creation of arroy's temp files is of interest: O_TMPFILE, or O_CREAT|O_EXCL below the work dir
+    let tmpfile = flags & libc::O_TMPFILE == libc::O_TMPFILE;
+    let excl = flags & (libc::O_CREAT | libc::O_EXCL) == (libc::O_CREAT | libc::O_EXCL);
+    if !tmpfile && !excl {
+        return raw_open(path, flags, mode);
+    }
+    guard(
+        || raw_open(path, flags, mode),
+        |st| {
+            let p = std::ffi::CStr::from_ptr(path).to_bytes();
+            let below = p.starts_with(st.work_prefix.as_bytes()) && !p.ends_with(b".mdb");
+            if below {
+                let f = st.faults.lock().unwrap().clone();
+                let ord = {
+                    let mut c = st.counters.lock().unwrap();
+                    let o = c.scratch_create;
+                    c.scratch_create += 1;
+                    o
+                };
+                if let Some((n, errno)) = f.create_fail {
+                    if ord >= n {
+                        st.counters.lock().unwrap().fired_create_fail += 1;
+                        set_errno(errno);
+                        return -1;
+                    }
+                }
+            }
+            raw_open(path, flags, mode)
+        },
+    )
+}
+
+#[no_mangle]
+pub unsafe extern "C" fn open(path: *const c_char, flags: c_int, mode: libc::c_uint) -> c_int {
+    do_open(path, flags, mode)
+}
+
+#[no_mangle]
+pub unsafe extern "C" fn open64(path: *const c_char, flags: c_int, mode: libc::c_uint) -> c_int {
+    do_open(path, flags, mode)
+}
+
+unsafe fn do_openat(dirfd: c_int, path: *const c_char, flags: c_int, mode: libc::c_uint) -> c_int {
+    let raw = || libc::syscall(libc::SYS_openat, dirfd as c_long, path, flags as c_long, mode as c_long) as c_int;
+    let tmpfile = flags & libc::O_TMPFILE == libc::O_TMPFILE;
+    let excl = flags & (libc::O_CREAT | libc::O_EXCL) == (libc::O_CREAT | libc::O_EXCL);
+    if dirfd != libc::AT_FDCWD || (!tmpfile && !excl) {
+        return raw();
+    }
+    do_open(path, flags, mode)
+}
+
+#[no_mangle]
+pub unsafe extern "C" fn openat(dirfd: c_int, path: *const c_char, flags: c_int, mode: libc::c_uint) -> c_int {
+    do_openat(dirfd, path, flags, mode)
+}
+
+#[no_mangle]
+pub unsafe extern "C" fn openat64(dirfd: c_int, path: *const c_char, flags: c_int, mode: libc::c_uint) -> c_int {
+    do_openat(dirfd, path, flags, mode)
+}
